@@ -203,8 +203,130 @@ def evaluate(c: Dict[str, Any]) -> Tuple[List[Any], Dict[str, Any]]:
 
 
 def replay(case: Dict[str, Any]) -> List[Dict[str, Any]]:
+    if 'tls_trickle' in case:
+        from vf.props import c11
+        try:
+            with K.unpatched():
+                vs, _ = tls_trickle(case['tls_trickle'])
+        finally:
+            c11.cleanup()
+        return [{'property': ID, 'clause': cl, 'features': ft, 'case': case, 'observed': ob, 'expected': ex} for (cl, ft, ob, ex) in vs]
     vs, _ = evaluate(case)
     return [{'property': ID, 'clause': cl, 'features': ft, 'case': case, 'observed': ob, 'expected': ex} for (cl, ft, ob, ex) in vs]
+
+
+# -- live: a TLS client side (no virtual clock possible: the record layer lives in OpenSSL) ------------------------------------
+
+def tls_trickle(pieces: int) -> Tuple[List[Any], Dict[str, Any]]:
+    """A client of a TLS listener (--key-file/--cert-file, --timeout 4) sends ONE TLS record in `pieces` segments, about a
+    second apart, for longer than the timeout in total: bytes keep arriving, so the connection is active and must not be reaped;
+    the request completed by the last segment must be answered.  The gaps are MEASURED: if any of them came close to the
+    timeout (machine too slow) the case is inconclusive."""
+    import ssl
+    import time
+    import socket
+    import threading
+    from vf.props import c11
+    from proxy.common.flag import FlagParser
+    from proxy.common.backports import NonBlockingQueue
+    from proxy.core.work.fd.local import LocalFdExecutor
+    TIMEOUT = 4
+    fx = c11.fixture()
+    P = fx['P']
+    flags = FlagParser.initialize(['--threadless', '--enable-web-server', '--key-file', P('good-key.pem'), '--cert-file', P('good-cert.pem'),
+                                   '--timeout', str(TIMEOUT)])
+    import logging
+    logging.disable(logging.CRITICAL)
+    q = NonBlockingQueue()
+    lex = LocalFdExecutor(iid='c20tls', work_queue=q, flags=flags, event_queue=None)
+    th = threading.Thread(target=lex.run, daemon=True)
+    th.start()
+    info: Dict[str, Any] = {'max_gap': 0.0, 'total': 0.0}
+    out: List[Any] = []
+    a, b = socket.socketpair()
+    try:
+        q.put((a, ('127.0.0.1', 53000)))
+        ctx = ssl.create_default_context(cafile=P('oca-cert.pem'))
+        inc, outg = ssl.MemoryBIO(), ssl.MemoryBIO()
+        obj = ctx.wrap_bio(inc, outg, server_hostname='localhost')
+        b.settimeout(20)
+        while True:
+            try:
+                obj.do_handshake()
+                break
+            except ssl.SSLWantReadError:
+                d = outg.read()
+                if d:
+                    b.sendall(d)
+                chunk = b.recv(65536)
+                if not chunk:
+                    info['inconclusive'] = True
+                    return out, info
+                inc.write(chunk)
+        d = outg.read()
+        if d:
+            b.sendall(d)
+        obj.write(b'GET /trickle HTTP/1.1\r\nHost: localhost\r\nX-Pad: ' + b'p' * 400 + b'\r\n\r\n')
+        rec = outg.read()
+        step = max(1, len(rec) // pieces)
+        parts = [rec[i:i + step] for i in range(0, len(rec), step)]
+        t0 = last = time.time()
+        closed_early = None
+        for i, part in enumerate(parts):
+            if i:
+                time.sleep(1.0)
+            now = time.time()
+            info['max_gap'] = max(info['max_gap'], now - last)
+            last = now
+            try:
+                b.sendall(part)
+            except OSError as e:
+                closed_early = 'send failed after %.1f s: %s' % (now - t0, type(e).__name__)
+                break
+        info['total'] = time.time() - t0
+        resp = b''
+        if closed_early is None:
+            deadline = time.time() + 15
+            while time.time() < deadline:
+                try:
+                    chunk = b.recv(65536)
+                except socket.timeout:
+                    break
+                except OSError as e:
+                    closed_early = 'recv failed: %s' % type(e).__name__
+                    break
+                if not chunk:
+                    break
+                inc.write(chunk)
+                try:
+                    while True:
+                        x = obj.read(65536)
+                        if not x:
+                            break
+                        resp += x
+                except (ssl.SSLWantReadError, ssl.SSLZeroReturnError):
+                    pass
+                except ssl.SSLError:
+                    break
+                if b'\r\n\r\n' in resp:
+                    break
+        if info['max_gap'] >= TIMEOUT - 1.5 or info['total'] <= TIMEOUT:
+            info['inconclusive'] = True       # too slow (or too fast) a machine for this trace to mean anything
+            return out, info
+        if not resp.startswith(b'HTTP/1.1 '):
+            out.append(('active-tls-client-reaped', {'live': True, 'tls_client_side': True},
+                        {'closed': closed_early, 'answer': resp[:40], 'max_gap_s': round(info['max_gap'], 2), 'total_s': round(info['total'], 2)},
+                        {'timeout': TIMEOUT, 'expected': 'bytes arrived every ~1 s: the connection is active; the completed request is answered'}))
+        return out, info
+    finally:
+        try:
+            b.close()
+        except OSError:
+            pass
+        try:
+            q.put(False)
+        except Exception:
+            pass
 
 
 GAPS = ['t-1s', 't-1ms', 't', 't+1ms', 't+1s', 't/2', '3t', '0']
@@ -228,10 +350,27 @@ def shards(tier: str) -> List[Dict[str, Any]]:
     for mode, k_ in (('local', 10), ('threaded', 6)):
         for i in range(k_):
             out.append({'name': '%s-%d' % (mode, i), 'mode': mode, 'examples': 100 if q else 2000})
+    out.append({'name': 'tls-client-trickle', 'mode': 'tlslive', 'examples': 2 if q else 6})
     return out
 
 
 def run_shard(spec: Dict[str, Any], seed: int, acc: Any) -> None:
+    if spec['mode'] == 'tlslive':
+        from vf.props import c11
+        try:
+            with K.unpatched():
+                for i in range(spec['examples']):
+                    c = {'tls_trickle': 6 + (i + seed) % 3}
+                    vs, info = tls_trickle(c['tls_trickle'])
+                    if info.get('inconclusive'):
+                        acc.dontcare += 1
+                    acc.case(c, not info.get('inconclusive'), labels=['live-tls-client-trickle', 'pieces:%d' % c['tls_trickle']])
+                    for (cl, ft, ob, ex) in vs:
+                        acc.fail(c, cl, ft, ob, ex)
+        finally:
+            c11.cleanup()
+        return
+
     def chk(c: Dict[str, Any]) -> List[Any]:
         vs, info = evaluate(c)
         if info.get('inconclusive'):
